@@ -24,13 +24,15 @@ PLAN = {
     "thorough": {"shards": 16, "shard_timeout": 3600, "case_timeout": 40, "grammars": 14000, "max_case_timeouts": 160},
 }
 THRESHOLDS = {
-    "quick": {"cases_declared_with_string_annotations": 50, "nodes_compared": 20000, "nodes_under_lists": 2000, "programs_after_variation": 300, "repr:tree": 300, "repr:ge": 100, "repr:sge": 100, "repr:dsge": 100, "list_nodes_compared": 1000, "expansion_nodes_compared": 8000, "expansion_nodes_with_exact_reference": 3000, "layered_expansion_cases": 100, "parents_rechecked_after_variation": 1000},
+    "quick": {"earlier_programs_rechecked_after_the_owner_extended_its_list": 30, "cases_declared_with_string_annotations": 50, "nodes_compared": 20000, "nodes_under_lists": 2000, "programs_after_variation": 300, "repr:tree": 300, "repr:ge": 100, "repr:sge": 100, "repr:dsge": 100, "list_nodes_compared": 1000, "expansion_nodes_compared": 8000, "expansion_nodes_with_exact_reference": 3000, "layered_expansion_cases": 100, "parents_rechecked_after_variation": 1000},
     "thorough": {"nodes_compared": 400000, "nodes_under_lists": 40000, "programs_after_variation": 6000},
 }
 
 
 def gen_cases(tier, seed):
     yield from stream.gen_cases(tier, seed, PLAN[tier]["grammars"], profiles=("general",), with_search=False, expansion_share=0.3)
+    for k in range(4):
+        yield {"kind": "shared-context", "desc": {"name": "py_context", "python": "context", "abstracts": [], "prods": [], "start": "Program", "expansion": k % 2 == 1}, "repr": "tree", "decider": "maxdepth", "extra_depth": 2, "seed": seed * 31 + k, "nops": 0, "search": None, "retype": False}
     # expansion depthing on layered hierarchies, entered at every level and with the classes listed in several orders
     # (the per-rule expansion counts are derived from registration order)
     rng = pyrandom.Random(f"c11-layers-{seed}")
@@ -165,7 +167,33 @@ def _ids_under_lists(model, v, under=False, out=None, d=0):
     return out
 
 
+def run_shared_context(case, rec):
+    """A user metahandler hands ONE list object (a prelude of names its owner keeps extending) to every program through
+    `initial_values`: each program's metadata must go on describing that program after the owner extended its list."""
+    ctx = stream.open_case(case, rec)
+    if ctx is None:
+        return
+    try:
+        src = workload.native(case["seed"])
+        rep = workload.make_repr("tree", ctx.grammar, "maxdepth", ctx.max_depth + 1, src)
+        prelude = ctx.built.ns["prelude"]
+        progs = []
+        for rnd in range(3):
+            for _ in range(3):
+                p = rep.create_genotype(src)
+                progs.append(p)
+                check_program(ctx, p, "create", rec)
+            prelude.append(progs[-1].scope.body)  # the owner's list grows by an expression the library created (its own business)
+            for p in progs:
+                rec.count("earlier_programs_rechecked_after_the_owner_extended_its_list")
+                check_program(ctx, p, "earlier-program-after-the-owner-extended-its-list", rec)
+    finally:
+        ctx.built.dispose()
+
+
 def run_case(case, rec):
+    if case.get("kind") == "shared-context":
+        return run_shared_context(case, rec)
     ctx = stream.open_case(case, rec)
     if ctx is None:
         return
